@@ -38,6 +38,7 @@ package main
 import (
 	"fmt"
 	"go/ast"
+	"go/constant"
 	"go/token"
 	"go/types"
 	"sort"
@@ -57,6 +58,9 @@ type sendTr struct {
 	recv      types.Object
 	own       map[types.Object]bool // byte buffers that are a memory of their own
 	sent      bool
+	callMem   *evar // set by encCall when the destination of the call is a buffer of its own
+	wrapper   bool                          // no pool buffer of its own: the function ends in a call of a translated send path
+	senders   map[*types.Func]*sendResult // translated send paths (callable from wrappers)
 }
 
 func (t *sendTr) extraParam(name, ty string) string {
@@ -122,6 +126,17 @@ func (t *sendTr) sessionPath(e ast.Expr) (string, bool) {
 
 func (t *sendTr) bytesArg(e ast.Expr) (string, error) {
 	e = paren(e)
+	if c, ok := e.(*ast.CallExpr); ok && len(c.Args) == 1 {
+		if tv, ok := t.info.Types[c.Fun]; ok && tv.IsType() && isByteSlice(tv.Type) {
+			if av, ok := t.info.Types[c.Args[0]]; ok && av.Value != nil && av.Value.Kind() == constant.String {
+				var bs []string
+				for _, ch := range []byte(constant.StringVal(av.Value)) {
+					bs = append(bs, fmt.Sprint(ch))
+				}
+				return "([" + strings.Join(bs, ", ") + "] : Bytes)", nil
+			}
+		}
+	}
 	if v := t.slOf(e); v != nil {
 		return "(" + v.lean + ".bytes m)", nil
 	}
@@ -242,6 +257,7 @@ func namedName(ty types.Type) string {
 
 // encCall: a call of a translated encoder → its Lean application and calling convention
 func (t *sendTr) encCall(c *ast.CallExpr) (string, *encResult, error) {
+	t.callMem = nil
 	var fn *types.Func
 	var recvE ast.Expr
 	switch f := c.Fun.(type) {
@@ -264,9 +280,6 @@ func (t *sendTr) encCall(c *ast.CallExpr) (string, *encResult, error) {
 	if !ok {
 		return "", nil, fail("call of %s: not a translated encoder", name)
 	}
-	if r.ownMem {
-		return "", nil, fail("call of %s: it allocates its result", name)
-	}
 	args := c.Args
 	if recvE != nil {
 		args = append([]ast.Expr{recvE}, args...)
@@ -275,12 +288,27 @@ func (t *sendTr) encCall(c *ast.CallExpr) (string, *encResult, error) {
 		return "", nil, fail("call of %s with %d arguments", name, len(args))
 	}
 	out := []string{"Gen.Enc." + name, "m"}
+	if r.ownMem {
+		out = out[:1]
+	}
 	for i, k := range r.kinds {
 		var s string
 		var err error
 		switch {
 		case k == "Sl":
+			if b := t.ownBuf(args[i]); b != nil {
+				// the destination is a buffer of its own: that buffer is the memory of the call
+				s, out[1] = "(whole "+b.lean+")", b.lean
+				t.callMem = b
+				break
+			}
 			s, err = t.slArg(args[i])
+		case k == "Bool":
+			if id, ok := paren(args[i]).(*ast.Ident); ok && (id.Name == "true" || id.Name == "false") {
+				s = id.Name
+			} else {
+				err = fail("bool argument %s", exprStr(args[i]))
+			}
 		case k == "Bytes":
 			s, err = t.bytesArg(args[i])
 		case k == "UInt8" || k == "Nat":
@@ -369,6 +397,22 @@ func (t *sendTr) encAssign(lhs []ast.Expr, c *ast.CallExpr, errDropped bool) err
 	if isBlank(id) {
 		name = "_"
 	}
+	if r.ownMem {
+		// a builder that allocates its result: the value is the byte string it returns (nil when its error is dropped)
+		if errDropped {
+			app = "ownOrNil (" + app + ")"
+		} else {
+			app = "builtBytes (" + app + ")"
+		}
+		t.emit("let %s ← %s", name, app)
+		if name != "_" {
+			t.bind(id, kBytes)
+		}
+		return nil
+	}
+	if t.callMem != nil {
+		return fail("result of an encoder writing into %s is used", t.callMem.lean)
+	}
 	if errDropped {
 		if r.results != 2 {
 			return fail("blank second result of a one-result call")
@@ -429,6 +473,40 @@ func (t *sendTr) sendStmt(s ast.Stmt, next ast.Stmt) (handled bool, skipNext boo
 		}
 		return true, false, fail("statement %T after the transmission", s)
 	}
+	if is, ok := s.(*ast.IfStmt); ok && is.Init == nil && is.Else == nil {
+		// if Logger.IsDebug() { … }: logging
+		if c, ok := paren(is.Cond).(*ast.CallExpr); ok && len(c.Args) == 0 {
+			if sel, ok := c.Fun.(*ast.SelectorExpr); ok && sel.Sel.Name == "IsDebug" {
+				t.ignored["if Logger.IsDebug() { … }"] = true
+				return true, false, nil
+			}
+		}
+		// if <cond> { return ErrX }
+		if len(is.Body.List) == 1 {
+			if rs, ok := is.Body.List[0].(*ast.ReturnStmt); ok && len(rs.Results) == 1 {
+				if id, ok := paren(rs.Results[0]).(*ast.Ident); ok && leanErrs[id.Name] != "" {
+					c, err := t.sendCond(is.Cond)
+					if err != nil {
+						return true, false, err
+					}
+					t.emit("if %s then .err .%s else do", c, leanErrs[id.Name])
+					t.indent += "  "
+					return true, false, nil
+				}
+			}
+		}
+	}
+	if rs, ok := s.(*ast.ReturnStmt); ok && t.wrapper && len(rs.Results) == 1 {
+		if c, ok := paren(rs.Results[0]).(*ast.CallExpr); ok {
+			app, err := t.senderCall(c)
+			if err != nil {
+				return true, false, err
+			}
+			t.emit("%s", app)
+			t.sent = true
+			return true, false, nil
+		}
+	}
 	switch x := s.(type) {
 	case *ast.DeferStmt:
 		if str := exprStr(x.Call.Fun); str == "EtherBufferPool.Put" || str == "packet.EtherBufferPool.Put" {
@@ -445,6 +523,18 @@ func (t *sendTr) sendStmt(s ast.Stmt, next ast.Stmt) (handled bool, skipNext boo
 		c, ok := x.X.(*ast.CallExpr)
 		if !ok {
 			return false, false, nil
+		}
+		// EncodeT(buf, …) with the result discarded, buf a buffer of its own
+		if _, _, err := t.peekEnc(c); err == nil {
+			app, _, err := t.encCall(c)
+			if err != nil {
+				return true, false, err
+			}
+			if t.callMem == nil {
+				return true, false, fail("result of %s is discarded", exprStr(c.Fun))
+			}
+			t.emit("let (%s, _) ← %s", t.callMem.lean, app)
+			return true, false, nil
 		}
 		// ICMP(x).SetChecksum(Checksum(y))
 		if sel, ok := c.Fun.(*ast.SelectorExpr); ok && sel.Sel.Name == "SetChecksum" && len(c.Args) == 1 && namedName(t.info.TypeOf(sel.X)) == "ICMP" {
@@ -668,6 +758,106 @@ func (t *sendTr) sendStmt(s ast.Stmt, next ast.Stmt) (handled bool, skipNext boo
 	return false, false, nil
 }
 
+// sendCond: conditions of the address-family guards
+func (t *sendTr) sendCond(e ast.Expr) (string, error) {
+	e = paren(e)
+	switch x := e.(type) {
+	case *ast.UnaryExpr:
+		if x.Op == token.NOT {
+			c, err := t.sendCond(x.X)
+			if err != nil {
+				return "", err
+			}
+			return "¬ (" + c + ")", nil
+		}
+	case *ast.BinaryExpr:
+		if x.Op == token.LOR || x.Op == token.LAND {
+			a, err := t.sendCond(x.X)
+			if err != nil {
+				return "", err
+			}
+			b, err := t.sendCond(x.Y)
+			if err != nil {
+				return "", err
+			}
+			return "(" + a + map[token.Token]string{token.LOR: " ∨ ", token.LAND: " ∧ "}[x.Op] + b + ")", nil
+		}
+	case *ast.CallExpr:
+		if sel, ok := x.Fun.(*ast.SelectorExpr); ok && len(x.Args) == 0 && isNetipAddr(t.info.TypeOf(sel.X)) && (sel.Sel.Name == "Is4" || sel.Sel.Name == "Is6") {
+			a, err := t.bytesArg(sel.X)
+			if err != nil {
+				return "", err
+			}
+			return a + ".length = " + map[string]string{"Is4": "4", "Is6": "16"}[sel.Sel.Name], nil
+		}
+	}
+	return t.cond(e)
+}
+
+// senderCall: h.<translated send path>(args…) of the same session
+func (t *sendTr) senderCall(c *ast.CallExpr) (string, error) {
+	sel, ok := c.Fun.(*ast.SelectorExpr)
+	if !ok {
+		return "", fail("return of %s", exprStr(c.Fun))
+	}
+	fn, _ := t.info.Uses[sel.Sel].(*types.Func)
+	r := t.senders[fn]
+	if fn == nil || r == nil {
+		return "", fail("return of %s: not a translated send path", exprStr(c.Fun))
+	}
+	if id, ok := paren(sel.X).(*ast.Ident); !ok || t.info.Uses[id] != t.recv {
+		return "", fail("send path called on %s, not on the receiver", exprStr(sel.X))
+	}
+	if len(c.Args) != len(r.kinds) {
+		return "", fail("send path called with %d arguments", len(c.Args))
+	}
+	out := []string{"Gen.Send." + r.name, "g"}
+	for i, k := range r.kinds {
+		switch {
+		case k == "skip":
+		case k == "Bytes":
+			s, err := t.bytesArg(c.Args[i])
+			if err != nil {
+				return "", err
+			}
+			out = append(out, s)
+		case k == "UInt8" || k == "Nat":
+			s, kk, err := t.num(c.Args[i])
+			if err != nil {
+				return "", err
+			}
+			if (k == "Nat") != (kk == kNat) {
+				return "", fail("argument %d of %s", i, r.name)
+			}
+			out = append(out, s)
+		case strings.HasPrefix(k, "struct:"):
+			v, _ := t.obj(c.Args[i])
+			if v != nil && v.kind == kStruct {
+				for _, f := range strings.Split(strings.TrimPrefix(k, "struct:"), ",") {
+					out = append(out, v.lean+"_"+f)
+				}
+				break
+			}
+			// a package-level / session struct value: one extra argument per field
+			n, ok := t.sessionPath(c.Args[i])
+			if !ok {
+				return "", fail("struct argument %s of %s", exprStr(c.Args[i]), r.name)
+			}
+			for j, f := range strings.Split(strings.TrimPrefix(k, "struct:"), ",") {
+				ty := "Bytes"
+				if strings.Split(r.fieldTys[i], ",")[j] == "Nat" {
+					ty = "Nat"
+				}
+				out = append(out, t.extraParam(n+"_"+f, ty))
+			}
+		}
+	}
+	for _, e := range r.extraNames {
+		out = append(out, t.extraParam(e, "Bytes"))
+	}
+	return strings.Join(out, " "), nil
+}
+
 // peekEnc: is c a call of a translated encoder (no code is emitted)
 func (t *sendTr) peekEnc(c *ast.CallExpr) (string, *encResult, error) {
 	saved, tmp := t.lines, t.tmp
@@ -704,12 +894,15 @@ type sendResult struct {
 	name, src, sig string
 	lines          []string
 	err            error
+	kinds          []string // per Go parameter: "Bytes" | "UInt8" | "Nat" | "struct:<fields>" | "skip"
+	fieldTys       []string // per Go parameter: for a struct, the Lean types of its fields
+	extraNames     []string // the session / package-level values appended as arguments
 }
 
-func translateSender(p *packages.Package, fd *ast.FuncDecl, name string, encs map[string]encResult, addr map[string]string, ignored, dict map[string]bool) sendResult {
+func translateSender(p *packages.Package, fd *ast.FuncDecl, name string, encs map[string]encResult, addr map[string]string, ignored, dict map[string]bool, senders map[*types.Func]*sendResult) sendResult {
 	info := p.TypesInfo
 	et := &encTr{p: p, info: info, name: name, env: map[types.Object]*evar{}, indent: "  ", assume: map[string]bool{}, callees: map[string]bool{}, addrVars: addr}
-	t := &sendTr{encTr: et, encs: encs, extraSeen: map[string]bool{}, ignored: ignored, dict: dict, own: map[types.Object]bool{}}
+	t := &sendTr{encTr: et, encs: encs, extraSeen: map[string]bool{}, ignored: ignored, dict: dict, own: map[types.Object]bool{}, senders: senders, wrapper: senders != nil}
 	res := sendResult{name: name}
 	pos := p.Fset.Position(fd.Pos())
 	res.src = fmt.Sprintf("%s.%s (%s)", p.Name, fd.Name.Name, pos.Filename[strings.LastIndex(pos.Filename, "/")+1:])
@@ -747,15 +940,19 @@ func translateSender(p *packages.Package, fd *ast.FuncDecl, name string, encs ma
 			if written[v] {
 				t.own[v] = true
 			}
+			res.kinds, res.fieldTys = append(res.kinds, "Bytes"), append(res.fieldTys, "")
 			params = append(params, fmt.Sprintf("(%s : Bytes)", ln))
 		case basicKind(ty) == types.Uint8:
 			t.env[v] = &evar{kU8, ln}
+			res.kinds, res.fieldTys = append(res.kinds, "UInt8"), append(res.fieldTys, "")
 			params = append(params, fmt.Sprintf("(%s : UInt8)", ln))
 		case basicKind(ty) == types.Uint16 || basicKind(ty) == types.Int:
 			t.env[v] = &evar{kNat, ln}
+			res.kinds, res.fieldTys = append(res.kinds, "Nat"), append(res.fieldTys, "")
 			params = append(params, fmt.Sprintf("(%s : Nat)", ln))
 		default:
 			if types.IsInterface(ty) {
+				res.kinds, res.fieldTys = append(res.kinds, "skip"), append(res.fieldTys, "")
 				continue // net.PacketConn: the connection is not modelled (the function's value is the frame handed to it)
 			}
 			st, ok := ty.Underlying().(*types.Struct)
@@ -764,18 +961,23 @@ func translateSender(p *packages.Package, fd *ast.FuncDecl, name string, encs ma
 				return res
 			}
 			t.env[v] = &evar{kStruct, ln}
+			var fns, fts []string
 			for i := 0; i < st.NumFields(); i++ {
 				f := st.Field(i)
+				fns = append(fns, f.Name())
 				switch {
 				case isByteSlice(f.Type()) || isNetipAddr(f.Type()):
+					fts = append(fts, "Bytes")
 					params = append(params, fmt.Sprintf("(%s_%s : Bytes)", ln, f.Name()))
 				case basicKind(f.Type()) == types.Uint16 || basicKind(f.Type()) == types.Int:
+					fts = append(fts, "Nat")
 					params = append(params, fmt.Sprintf("(%s_%s : Nat)", ln, f.Name()))
 				default:
 					res.err = fail("field %s.%s of type %v", v.Name(), f.Name(), f.Type())
 					return res
 				}
 			}
+			res.kinds, res.fieldTys = append(res.kinds, "struct:"+strings.Join(fns, ",")), append(res.fieldTys, strings.Join(fts, ","))
 		}
 	}
 	list := fd.Body.List
@@ -803,11 +1005,14 @@ func translateSender(p *packages.Package, fd *ast.FuncDecl, name string, encs ma
 		res.err = fail("no frame is written")
 		return res
 	}
-	if t.pool == nil {
+	if t.pool == nil && !t.wrapper {
 		res.err = fail("no pool buffer")
 		return res
 	}
 	params = append(params, t.extra...)
+	for _, e := range t.extra {
+		res.extraNames = append(res.extraNames, strings.TrimSuffix(strings.TrimSuffix(strings.TrimPrefix(e, "("), " : Bytes)"), " : Nat)"))
+	}
 	res.sig = fmt.Sprintf("def %s %s : Outcome Bytes := do", name, strings.Join(params, " "))
 	res.lines = t.lines
 	return res
@@ -919,13 +1124,64 @@ func senderFacts(pkgs []*packages.Package, root *packages.Package, b *strings.Bu
 	}
 	ignored, dict := map[string]bool{}, map[string]bool{}
 	var done, untr []string
+	senders := map[*types.Func]*sendResult{}
 	for _, c := range cs {
-		r := translateSender(c.p, c.fd, c.name, encs, addr, ignored, dict)
+		r := translateSender(c.p, c.fd, c.name, encs, addr, ignored, dict, nil)
 		if r.err != nil {
 			untr = append(untr, fmt.Sprintf("(%q, %q)", c.name, r.err.Error()))
 			continue
 		}
 		done = append(done, fmt.Sprintf("%q", c.name))
+		rr := r
+		senders[c.p.TypesInfo.Defs[c.fd.Name].(*types.Func)] = &rr
+		fmt.Fprintf(b, "/-- Go: %s -/\n%s\n%s\n\n", strings.ReplaceAll(r.src, "-/", "- /"), r.sig, strings.Join(r.lines, "\n"))
+	}
+	// second level: functions that END in `return h.<translated send path>(…)` (message builders + send)
+	var ws []cand
+	for _, p := range all {
+		for _, f := range p.Syntax {
+			for _, d := range f.Decls {
+				fd, ok := d.(*ast.FuncDecl)
+				if !ok || fd.Body == nil || len(fd.Body.List) == 0 {
+					continue
+				}
+				rs, ok := fd.Body.List[len(fd.Body.List)-1].(*ast.ReturnStmt)
+				if !ok || len(rs.Results) != 1 {
+					continue
+				}
+				c, ok := paren(rs.Results[0]).(*ast.CallExpr)
+				if !ok {
+					continue
+				}
+				sel, ok := c.Fun.(*ast.SelectorExpr)
+				if !ok {
+					continue
+				}
+				fn, _ := p.TypesInfo.Uses[sel.Sel].(*types.Func)
+				if fn == nil || senders[fn] == nil {
+					continue
+				}
+				name := fd.Name.Name
+				if p != root {
+					name = p.Name + "_" + name
+				}
+				if seen[name] {
+					continue
+				}
+				seen[name] = true
+				ws = append(ws, cand{name, p, fd})
+			}
+		}
+	}
+	sort.Slice(ws, func(i, j int) bool { return ws[i].name < ws[j].name })
+	var wdone, wuntr []string
+	for _, c := range ws {
+		r := translateSender(c.p, c.fd, c.name, encs, addr, ignored, dict, senders)
+		if r.err != nil {
+			wuntr = append(wuntr, fmt.Sprintf("(%q, %q)", c.name, r.err.Error()))
+			continue
+		}
+		wdone = append(wdone, fmt.Sprintf("%q", c.name))
 		fmt.Fprintf(b, "/-- Go: %s -/\n%s\n%s\n\n", strings.ReplaceAll(r.src, "-/", "- /"), r.sig, strings.Join(r.lines, "\n"))
 	}
 	lst := func(m map[string]bool) string {
@@ -938,6 +1194,8 @@ func senderFacts(pkgs []*packages.Package, root *packages.Package, b *strings.Bu
 	}
 	fmt.Fprintf(b, "/-- F15: the send paths (functions taking a frame buffer from the pool) translated above -/\ndef sendersTranslated : List String := [%s]\n\n", strings.Join(done, ", "))
 	fmt.Fprintf(b, "/-- F15: send paths the translator could NOT express, with the first offending construct -/\ndef sendersUntranslated : List (String × String) := [\n  %s]\n\n", strings.Join(untr, ",\n  "))
+	fmt.Fprintf(b, "/-- F15: functions ending in a call of a translated send path (message builder + send), translated above -/\ndef wrappersTranslated : List String := [%s]\n\n", strings.Join(wdone, ", "))
+	fmt.Fprintf(b, "/-- F15: such functions the translator could NOT express, with the first offending construct -/\ndef wrappersUntranslated : List (String × String) := [\n  %s]\n\n", strings.Join(wuntr, ",\n  "))
 	fmt.Fprintf(b, "/-- F15: statements without effect on the frame that were skipped -/\ndef sendersIgnored : List String := [%s]\n\n", lst(ignored))
 	fmt.Fprintf(b, "/-- F15: Go callees replaced by a model function -/\ndef sendersDict : List String := [%s]\n\n", lst(dict))
 	fmt.Fprintf(b, "/-- F15: ICMP.SetChecksum was regenerated from its own body -/\ndef setChecksumTranslated : Bool := %v\n\n", cksOK)
